@@ -35,7 +35,8 @@ TOL_F = 1e-12
 BETA_MIN = math.radians(0.1)
 BETA_MAX = math.radians(42.0)
 E_NODES = [6.0 + 0.25 * i for i in range(25)]
-B_NODES = [math.radians(0.1 * i) for i in range(1, 11)] + [math.radians(float(i)) for i in range(2, 43)]
+# the tabulated angles themselves (bit-exact; they differ from radians(i) by an ulp for some i)
+B_NODES = sorted({float(b) for v in otab.versions() for b in otab.load("cdf", v)["axes"]["beta_rad"]})
 GOLD = 0.6180339887498949
 
 
